@@ -19,11 +19,22 @@ _Bool nondet_bool(void);
 static int nondet_err(void) { int r = nondet_int(); __CPROVER_assume(r == USCXML_ERR_OK || (r >= USCXML_ERR_MISSING_CALLBACK && r <= USCXML_ERR_UNSUPPORTED)); return r; }
 
 /* ---- ghost state written by the callback stubs ---- */
-int g_calls;            /* 1 once a user callback was invoked during the step */
-int g_int_last_null;    /* last dequeue_internal answer was NULL */
-int g_ext_calls;        /* 1 once dequeue_external was called */
-int g_foreach_budget;   /* bound on the items a <foreach> iterates over (see assumptions) */
-int g_last_ext_null;
+/* one struct = one assigns target (dfcc's loop instrumentation is superlinear in the number of targets) */
+struct ghost_t {
+  int calls;            /* 1 once a user callback was invoked during the step */
+  int int_last_null;    /* last dequeue_internal answer was NULL */
+  int ext_calls;        /* 1 once dequeue_external was called */
+  int foreach_budget;   /* bound on the items a <foreach> iterates over (see assumptions) */
+  int last_ext_null;
+  int phase, last;      /* ORDER_LOG: 0 nothing yet, 1 exits, 2 transition content, 3 entries; index of the last exit/entry */
+} G;
+#define g_calls G.calls
+#define g_int_last_null G.int_last_null
+#define g_ext_calls G.ext_calls
+#define g_foreach_budget G.foreach_budget
+#define g_last_ext_null G.last_ext_null
+#define g_phase G.phase
+#define g_last G.last
 static char g_event_obj; /* the one event object the queues hand out */
 
 #define NT (USCXML_MACHINE.nr_transitions)
@@ -57,7 +68,28 @@ static int stub_raise_done_event(const uscxml_ctx *ctx, const uscxml_state *stat
   __CPROVER_assert(state >= &USCXML_MACHINE.states[0] && state < &USCXML_MACHINE.states[0] + NS, "C04.callback: raise_done_event receives a state of the machine");
   return nondet_err();
 }
-static int stub_log(const uscxml_ctx *ctx, const char *label, const char *expr) { g_calls = 1; return nondet_err(); }
+/* ORDER_LOG (corpus/c12_content_order.scxml): <log expr="X<nn>"> in onexit, "E<nn>" in onentry, "T" in transitions */
+static int stub_log(const uscxml_ctx *ctx, const char *label, const char *expr) {
+  g_calls = 1;
+#ifdef ORDER_LOG
+  if (expr != 0 && (expr[0] == 'X' || expr[0] == 'E' || expr[0] == 'T')) {
+    int n = expr[0] == 'T' ? 0 : (expr[1] - '0') * 10 + (expr[2] - '0');
+    if (expr[0] == 'X') {
+      __CPROVER_assert(g_phase <= 1, "C04.order: states are exited before transition content runs and before states are entered");
+      __CPROVER_assert(g_phase != 1 || n < g_last, "C04.order: states are exited in reverse document order");
+      g_phase = 1; g_last = n;
+    } else if (expr[0] == 'T') {
+      __CPROVER_assert(g_phase <= 2, "C04.order: transition content runs after all exits and before all entries");
+      g_phase = 2;
+    } else {
+      __CPROVER_assert(g_phase != 3 || n > g_last, "C04.order: states are entered in document order");
+      g_phase = 3; g_last = n;
+    }
+    return USCXML_ERR_OK;
+  }
+#endif
+  return nondet_err();
+}
 static int stub_raise(const uscxml_ctx *ctx, const char *event) { g_calls = 1; return nondet_err(); }
 static int stub_send(const uscxml_ctx *ctx, const uscxml_elem_send *send) { g_calls = 1; __CPROVER_assert(send != 0, "C04.callback: send element"); return nondet_err(); }
 static int stub_foreach_init(const uscxml_ctx *ctx, const uscxml_elem_foreach *f) { g_calls = 1; return nondet_err(); }
@@ -113,7 +145,7 @@ __CPROVER_assigns(ctx->flags, ctx->event,
                   __CPROVER_object_upto(ctx->history, USCXML_MAX_NR_STATES_BYTES),
                   __CPROVER_object_upto(ctx->invocations, USCXML_MAX_NR_STATES_BYTES),
                   __CPROVER_object_upto(ctx->initialized_data, USCXML_MAX_NR_STATES_BYTES),
-                  g_calls, g_int_last_null, g_ext_calls, g_last_ext_null, g_foreach_budget)
+                  G)
 /* life cycle */
 __CPROVER_ensures((__CPROVER_old(ctx->flags) & USCXML_CTX_FINISHED) ==> (__CPROVER_return_value == USCXML_ERR_DONE && ctx->flags == __CPROVER_old(ctx->flags) && g_calls == __CPROVER_old(g_calls)))
 __CPROVER_ensures((!(__CPROVER_old(ctx->flags) & USCXML_CTX_FINISHED) && (__CPROVER_old(ctx->flags) & USCXML_CTX_TOP_LEVEL_FINAL) && __CPROVER_return_value == USCXML_ERR_DONE) ==> (ctx->flags & USCXML_CTX_FINISHED))
@@ -150,7 +182,7 @@ static void setup_ctx(void) {
   g_ctx.exec_content_cancel = nondet_bool() ? stub_cancel : 0;
   g_ctx.exec_content_script = nondet_bool() ? stub_script : 0;
   g_ctx.invoke = stub_invoke;
-  g_calls = 0; g_int_last_null = 0; g_ext_calls = 0; g_last_ext_null = 0; g_foreach_budget = 2;
+  g_calls = 0; g_int_last_null = 0; g_ext_calls = 0; g_last_ext_null = 0; g_foreach_budget = 2; g_phase = 0; g_last = 0;
 }
 
 void h_step(void) {
